@@ -20,6 +20,7 @@
 #include <map>
 #include <set>
 #include <string>
+#include <regex>
 #include <unordered_set>
 #include <vector>
 
@@ -29,7 +30,13 @@ typedef void (*replay_fn) (const uint8_t *, size_t, int, int, const uint8_t *, s
 static run_fn g_run;
 static replay_fn g_replay;
 static int g_prop, g_family = -1;
-static std::set<std::string> g_suppress;
+static std::set<std::string> g_suppress;   // signatures of open known findings: literal strings, or regular expressions prefixed with "re:"
+static std::vector<std::regex> g_suppress_re;
+static bool is_suppressed (const char *sig) {
+	if (g_suppress.count (sig) > 0) return true;
+	for (auto &re : g_suppress_re) if (std::regex_match (sig, re)) return true;
+	return false;
+}
 
 struct Counters {
 	uint64_t evaluations = 0, nontrivial = 0, owned_fail = 0, foreign = 0, budget = 0, excluded = 0, suppressed = 0;
@@ -76,9 +83,9 @@ static bool run_one (const std::vector<uint8_t> &tape, bool count) {
 	interp_result r;
 	g_run (tape.data (), tape.size (), g_prop, g_family, &r, NULL, 0);
 	bool owned = r.owned && r.v.kind != RT_V_NONE;
-	bool sup = owned && g_suppress.count (r.v.sig) > 0;
+	bool sup = owned && is_suppressed (r.v.sig);
 	if (count) {
-		C.evaluations++;
+		C.evaluations += (r.sub_evaluations > 0) ? (uint64_t) r.sub_evaluations : 1;
 		C.steps += r.st.steps; C.sem_blocks += r.st.sem_blocks; C.timeouts += r.st.sem_timeouts; C.cas_fail += r.st.cas_fail;
 		C.clock_moves += r.st.clock_moves; C.frozen += r.st.frozen; C.faults += r.st.faults_injected; C.switches += r.st.switches;
 		C.atomics += r.st.atomics; C.plains += r.st.plains; C.hb_edges += r.st.hb_edges_used; C.alloc_failed += r.st.alloc_failed;
@@ -138,7 +145,7 @@ int main (int argc, char **argv) {
 		else if (a == "--dump") dump = true;
 		else if (a == "--suppress") {
 			std::string s = next (); size_t p = 0;
-			while (p <= s.size ()) { size_t q = s.find (';', p); if (q == std::string::npos) q = s.size (); if (q > p) g_suppress.insert (s.substr (p, q - p)); p = q + 1; }
+			while (p <= s.size ()) { size_t q = s.find (';', p); if (q == std::string::npos) q = s.size (); if (q > p) { std::string e = s.substr (p, q - p); if (e.compare (0, 3, "re:") == 0) g_suppress_re.push_back (std::regex (e.substr (3))); else g_suppress.insert (e); } p = q + 1; }
 		} else { fprintf (stderr, "unknown argument %s\n", a.c_str ()); return 2; }
 	}
 	if (!so || !g_prop) { fprintf (stderr, "usage: simcheck --so PATH --prop N ...\n"); return 2; }
@@ -158,7 +165,7 @@ int main (int argc, char **argv) {
 			if (strcmp (sig0, r.v.sig) == 0) same++;
 		}
 		bool owned = r.owned && r.v.kind != RT_V_NONE;
-		bool sup = owned && g_suppress.count (r.v.sig) > 0;
+		bool sup = owned && is_suppressed (r.v.sig);
 		if (dump || !out) printf ("%s", d);
 		printf ("REPLAY property=C%02d verdict=%s sig=%s owned=%d known=%d deterministic=%d/3\n", g_prop, kind_name (r.v.kind), r.v.sig, owned ? 1 : 0, sup ? 1 : 0, same);
 		if (out) {
